@@ -106,7 +106,7 @@ Theorem ebgp_any_policy :
          /\ ((p_nh p = None -> is_flowspec (c_family c) = false) ->
              (forall n, p_nh p = Some n -> src_is_local s = true -> ip_unspecified (nh_addr n) = true) ->
              nh0 = Some (self_nexthop x))
-         /\ pol s a0 nh0 (p_nh p) = Some (a1, nh).
+         /\ pol s a0 nh0 (p_nh p) (role_eqb (x_role x) ConfedEbgp) = Some (a1, nh).
 Proof. exact C09_ebgp_any_policy. Qed.
 Check ebgp_any_policy :
   forall x pol emax raddr cid c e d pid nh out s,
@@ -118,7 +118,7 @@ Check ebgp_any_policy :
          /\ ((p_nh p = None -> is_flowspec (c_family c) = false) ->
              (forall n, p_nh p = Some n -> src_is_local s = true -> ip_unspecified (nh_addr n) = true) ->
              nh0 = Some (self_nexthop x))
-         /\ pol s a0 nh0 (p_nh p) = Some (a1, nh).
+         /\ pol s a0 nh0 (p_nh p) (role_eqb (x_role x) ConfedEbgp) = Some (a1, nh).
 Print Assumptions ebgp_any_policy.
 
 (* (6) To iBGP peers: LOCAL_PREF is present (the route's own if it has one), the
@@ -535,3 +535,67 @@ Check history_view_allowed :
       /\ (x_role x = Ibgp -> ~ nonclient_ibgp_source s)
       /\ (x_role x = Ebgp -> ebgp_strips_ok v).
 Print Assumptions history_view_allowed.
+
+(* Export policies that can panic (an as-prepend action runs the AS_PATH edits on the
+   bytes it finds).  process_change_r is the model of process_nlri_change with such a
+   policy; a call that returns is a call of process_change_v with the policy that answers
+   on the inputs it survives, so every statement above about [advertised] carries over;
+   and with a policy that never panics the two are the same function. *)
+Theorem process_change_r_lower :
+  forall fixed x polr emax raddr cid c e r,
+    process_change_r fixed x polr emax raddr cid c e = Ok r ->
+    process_change_v fixed x (lower_policy polr) emax raddr cid c e = Ok r.
+Proof. exact C09_process_change_r_lower. Qed.
+Check process_change_r_lower :
+  forall fixed x polr emax raddr cid c e r,
+    process_change_r fixed x polr emax raddr cid c e = Ok r ->
+    process_change_v fixed x (lower_policy polr) emax raddr cid c e = Ok r.
+Print Assumptions process_change_r_lower.
+
+Theorem process_change_r_lift :
+  forall fixed x pol emax raddr cid c e,
+    process_change_r fixed x (lift_policy pol) emax raddr cid c e = process_change_v fixed x pol emax raddr cid c e.
+Proof. exact C09_process_change_r_lift. Qed.
+Check process_change_r_lift :
+  forall fixed x pol emax raddr cid c e,
+    process_change_r fixed x (lift_policy pol) emax raddr cid c e = process_change_v fixed x pol emax raddr cid c e.
+Print Assumptions process_change_r_lift.
+
+(* The AS_PATH edits as used by an export policy's as-prepend action compose with the
+   role rewrite as they must: towards an eBGP peer the k copies sit in an AS_SEQUENCE
+   between the local AS (confederation id) and the path without its confederation
+   segments; towards a confed-eBGP peer they sit in the AS_CONFED_SEQUENCE behind the
+   member AS (process_nlri_change hands is_confed = (role == ConfedEbgp) to
+   table::apply_export). *)
+Theorem policy_prepend_then_export :
+  forall x st pa default emax raddr cid c e r d pid nh out s,
+    wf_ctx x -> (x_role x = Ebgp \/ x_role x = ConfedEbgp) ->
+    pa_left_most pa = false -> pa_asn pa < 4294967296 -> pa_repeat pa <> 0 ->
+    (forall p, In p (c_paths c) -> decodable (p_attrs p)) ->
+    process_change_r true x (stmt_policy_r x raddr st (Some pa) default) emax raddr cid c e = Ok r ->
+    In (Reach d pid nh out s) (fst r) ->
+    exists p, In p (c_paths c) /\ s = p_src p /\
+      forall pin, path_of (p_attrs p) pin ->
+      exists segs', path_of out (Some segs') /\
+        tflat segs' =
+        if role_eqb (x_role x) ConfedEbgp
+        then (3, x_lasn x) :: repeat (3, pa_asn pa) (N.to_nat (pa_repeat pa)) ++ tflat (segs_of pin)
+        else (2, external_asn x) :: repeat (2, pa_asn pa) (N.to_nat (pa_repeat pa))
+                                   ++ tflat (strip_confed_spec (segs_of pin)).
+Proof. exact C09_policy_prepend_then_export. Qed.
+Check policy_prepend_then_export :
+  forall x st pa default emax raddr cid c e r d pid nh out s,
+    wf_ctx x -> (x_role x = Ebgp \/ x_role x = ConfedEbgp) ->
+    pa_left_most pa = false -> pa_asn pa < 4294967296 -> pa_repeat pa <> 0 ->
+    (forall p, In p (c_paths c) -> decodable (p_attrs p)) ->
+    process_change_r true x (stmt_policy_r x raddr st (Some pa) default) emax raddr cid c e = Ok r ->
+    In (Reach d pid nh out s) (fst r) ->
+    exists p, In p (c_paths c) /\ s = p_src p /\
+      forall pin, path_of (p_attrs p) pin ->
+      exists segs', path_of out (Some segs') /\
+        tflat segs' =
+        if role_eqb (x_role x) ConfedEbgp
+        then (3, x_lasn x) :: repeat (3, pa_asn pa) (N.to_nat (pa_repeat pa)) ++ tflat (segs_of pin)
+        else (2, external_asn x) :: repeat (2, pa_asn pa) (N.to_nat (pa_repeat pa))
+                                   ++ tflat (strip_confed_spec (segs_of pin)).
+Print Assumptions policy_prepend_then_export.
